@@ -506,7 +506,14 @@ impl ObjFileFormat for TextFormat {
                 ".DEBUG" => if !rest.is_empty() {
                     let split_pos = rest.iter().position(|l| l.starts_with('='))?;
                     if !rest.last()?.starts_with('=') { return None; }
-                    let (label_src, [_, line_src @ .., _]) = rest.split_at(split_pos) else { unreachable!("divider should be present") };
+                    // `after` starts with the divider found above. A lone divider means there is no line table
+                    // (which is what `serialize` writes for a symbol table without debug symbols).
+                    let (label_src, after) = rest.split_at(split_pos);
+                    let line_src: &[&str] = match after {
+                        [_] => &[],
+                        [_, line_src @ .., _] => line_src,
+                        [] => return None
+                    };
 
                     let label_table = parse_table(label_src, ["LABEL", "INDEX"], |[label, index_str], _| {
                         let index = index_str.parse().ok()?;
